@@ -108,22 +108,35 @@ class Injector:
 
 
 class FileProxy:
+    """the text file object, with its own 8 KiB buffer so that a failing close loses what a real one loses"""
+    BUF = 8192
+
     def __init__(self, fh, inj):
         self.__dict__["_fh"] = fh
         self.__dict__["_inj"] = inj
+        self.__dict__["_buf"] = []
+        self.__dict__["_n"] = 0
 
     def __enter__(self):
         self._fh.__enter__()
         return self
 
+    def _drain(self):
+        if self._buf:
+            self._fh.write("".join(self._buf))
+            self.__dict__["_buf"] = []
+            self.__dict__["_n"] = 0
+
     def _close(self):
         self._inj.calls["close"] += 1
         if self._inj.has("close"):
-            # what a full disk does: the buffered data cannot be flushed; the descriptor is closed anyway
+            # what a full disk does: the buffered data cannot be flushed and is lost; the descriptor is closed anyway
+            self.__dict__["_buf"] = []
             try:
                 self._fh.close()
             finally:
                 raise OSError(errno.ENOSPC, "injected: close (flush of buffered data)")
+        self._drain()
 
     def __exit__(self, *a):
         self._close()
@@ -133,12 +146,20 @@ class FileProxy:
         self._close()
         return self._fh.close()
 
+    def flush(self):
+        self._drain()
+        return self._fh.flush()
+
     def write(self, s):
         j = self._inj.nw
         self._inj.nw += 1
         if self._inj.has("write", j):
             raise OSError(errno.ENOSPC, "injected: write")
-        return self._fh.write(s)
+        self._buf.append(s)
+        self.__dict__["_n"] = self._n + len(s)
+        if self._n > self.BUF:
+            self._drain()
+        return len(s)
 
     def __iter__(self):
         return iter(self._fh)
@@ -173,6 +194,42 @@ class OsProxy:
     unlink = remove
 
 
+class ShutilProxy:
+    """stands in for `shutil` inside montepy.input_parser.input_file: a copy that takes the place of os.replace
+    fails the way a copy fails — the target already truncated and partly written"""
+
+    def __init__(self, inj):
+        self._inj = inj
+
+    def __getattr__(self, n):
+        return getattr(shutil, n)
+
+    def _partial(self, src, dst, real):
+        self._inj.calls["replace"] += 1
+        if self._inj.has("replace"):
+            if os.path.isdir(dst):
+                dst = os.path.join(dst, os.path.basename(src))
+            with builtins.open(src, "rb") as f:
+                data = f.read()
+            with builtins.open(dst, "wb") as f:
+                f.write(data[:len(data) // 2])
+            raise OSError(errno.ENOSPC, "injected: copy over the destination", os.fspath(dst))
+        return real(src, dst)
+
+    def copyfile(self, src, dst, **k):
+        return self._partial(src, dst, shutil.copyfile)
+
+    def copy(self, src, dst, **k):
+        return self._partial(src, dst, shutil.copy)
+
+    def copy2(self, src, dst, **k):
+        return self._partial(src, dst, shutil.copy2)
+
+    def move(self, src, dst, **k):
+        # a move to another file system is copy + unlink
+        return self._partial(src, dst, shutil.move)
+
+
 def object_sequence(problem):
     """objects in the order write_to_file formats them, by section"""
     secs = {"M": [problem.message] if problem.message else [], "T": [problem.title],
@@ -199,6 +256,10 @@ class Patched:
         old_os = IF.os
         IF.os = OsProxy(inj)
         self.undo.append(lambda: setattr(IF, "os", old_os))
+        if "shutil" in IF.__dict__:
+            old_sh = IF.shutil
+            IF.shutil = ShutilProxy(inj)
+            self.undo.append(lambda: setattr(IF, "shutil", old_sh))
         secs = object_sequence(self.problem)
         for sec in "MTCSD":
             for obj in secs[sec]:
@@ -600,6 +661,9 @@ def compare_model(case, obs, answer):
         and all(n in obs["pre"] or n in (base, tn) for n in obs["post"])
     real["o"] = "1" if others else "0"
     model = {"result": res, "d": kv["d"], "t": kv["t"], "nf": kv["nf"], "nw": kv["nw"], "o": kv["o"]}
+    if any(f[0] == "close" for f in case.get("faults", [])) and real["t"][:1] == "F" and model["t"][:1] == "F":
+        # a failing close loses the buffered text (not modelled): only the presence of the temporary is compared
+        real["t"] = model["t"] = "F"
     if real != model:
         diff = {k: {"real": real[k][:120], "model": model[k][:120]} for k in real if real[k] != model[k]}
         return {"differs": diff, "temp_name": tn, "raised": obs["exc"], "msg": obs["exc_msg"]}
